@@ -273,19 +273,20 @@ Section Stored.
                   end = CItems items).
     { destruct (get_loc [PName k_errors] resp) as [[| | | |[|]|]|]; try exact Hc. discriminate. }
     clear Hc. destruct (ttl (rs_cc res) default_ttl) as [t|] eqn:Et; [|discriminate].
-    destruct (get_loc [PName k_data; PName k_entities] resp) as [[| | | |vals|]|]; try discriminate.
+    destruct (get_loc [PName k_data; PName k_entities] resp) as [[| | | |vals|]|] eqn:Eent; try discriminate.
     destruct (Nat.eqb (length vals) (length keys)); [|discriminate].
     inversion Hc'; subst items. clear Hc'.
     apply in_flat_map in Hin as ((k, v) & Hkv & He). simpl in He.
     destruct v; simpl in He; try contradiction. destruct He as [<-|[]]. simpl.
     unfold stored_from. cbn [ce_key ce_ttl].
-    refine (conj _ (conj _ (conj _ (conj _ (conj _ _))))).
+    refine (conj _ (conj _ (conj _ (conj _ (conj _ (conj _ _)))))).
     - rewrite <- Hk. eapply in_combine_l; exact Hkv.
     - exact Eerr.
     - apply N.ltb_lt. apply N.leb_gt in Est. exact Est.
     - exact Hne.
     - exact Et.
     - pose proof (ttl_sound_dialect (rs_cc res) default_ttl) as S. rewrite Et in S. exact S.
+    - exists resp, vals. split; [exact Eb|]. split; [exact Eent|]. rewrite <- Hk. exact Hkv.
   Qed.
 
   Definition log_ok (x : cstate) : Prop :=
